@@ -32,4 +32,8 @@ CLAIMED = {
    text="Random projects of the core dialect and the complete enumeration of a bounded universe (2.3 M projects; quick runs a seed-selected 1/64 slice) are scheduled by the real code and by an independent ~200-line reference list scheduler built on the independent calendar; scheduled flag, start and end of every leaf task must be equal. Differential exploration against a reference model: any off-by-one slot, flipped tie-break, misapplied gap or limit shows up as a date difference.",
    note="Trusts the reference's reading of the documented rule (milestone pre-pass, nearest dated container as lower bound, team = one limit unit per member); horizon-edge tasks compared only if both scheduled.",
    technique="differential property-based testing + exhaustive bounded enumeration against an independent reference scheduler"),
+ "C08": dict(
+   text="Generated projects (sub-slot efforts, contention, leaves, zones, cross-midnight shifts; forward tasks, project-level and anchored task-level ALAP) are scheduled by the real code; for every judged task the slots between its dependency bound and its end (mirror: between its end and its deadline) are scanned in the final ledger for a slot that is working for all of its resources by the independent calendar, entirely unbooked and unused by the task.",
+   note="Sound because bookings are never withdrawn; slot granularity as stated; limited tasks, alternatives and ALAP-propagated tasks are generated but not judged; dependency bounds use the observed predecessor dates.",
+   technique="property-based testing (Hypothesis) with a universally quantified validity predicate over free slots, against an independent calendar"),
 }
